@@ -99,6 +99,18 @@ func (c *ctx) emitValidate(kind string, m []byte) {
 	}
 }
 
+// errorFrames: constructed frames with the Error identifier - all 256 codes, and payloads of 0, 2, 3 and 255 bytes - as
+// validate cases (verdict, rendering, accessors)
+func (c *ctx) errorFrames() {
+	for code := 0; code < 256; code++ {
+		c.emitValidate("validate", xsens.NewMessage(xsens.MessageIdentifierError, []byte{byte(code)}))
+	}
+	for _, n := range []int{0, 2, 3, 254, 255} {
+		c.emitValidate("validate", xsens.NewMessage(xsens.MessageIdentifierError, c.payload(n)))
+	}
+	c.count("error-identifier-frames")
+}
+
 // lengths biased to the protocol's boundaries
 func (c *ctx) payloadLen() int {
 	switch c.rng.Intn(10) {
@@ -305,6 +317,8 @@ func init() {
 			f = append(f, -s)
 			c.emitValidate("validate", f)
 		}
+		// frames with the Error identifier: every code, and the payload lengths next to one
+		c.errorFrames()
 		// bounded-exhaustive over the protocol alphabet
 		allStrings(c.pick(4, 5), func(b []byte) { c.emitValidate("validate", b) })
 		allStrings(c.pick(4, 5), func(b []byte) { c.emitValidate("validate", append([]byte{0xfa, 0xff}, b...)) })
@@ -413,9 +427,36 @@ func init() {
 	c06frames := props["C06"]
 	props["C06"] = func(c *ctx) {
 		c06frames(c)
+		c.errorFrames()
+		// constructed frames handed to an emulator: its scanner must deliver them too (a mode command behind each shows it)
+		c.emuDelivers()
 		c.commandCases("client", c.pick(40, 300))
 	}
 
+	c07walk := func(c *ctx) {
+		// the client's walk: packets of decodable, undecodable (no record in the client) and short-data kinds in any
+		// order; the scan is called again after it has refused a packet (it must move on, never deliver one twice)
+		for i := 0; i < c.pick(150, 1500); i++ {
+			var payload []byte
+			np := 1 + c.rng.Intn(6)
+			for k := 0; k < np; k++ {
+				payload = append(payload, c.packet([]int{0, 0, 1, 2, 2, 3}[c.rng.Intn(6)])...)
+			}
+			if c.rng.Intn(5) == 0 {
+				payload = payload[:c.rng.Intn(len(payload)+1)]
+			}
+			stream := []byte(xsens.NewMessage(xsens.MessageIdentifierMTData2, payload))
+			ops := []cop{{kind: "receive"}}
+			for k := 0; k < np+3; k++ {
+				ops = append(ops, cop{kind: "scan"}, cop{kind: "rawpkt"}, cop{kind: "dtype"})
+			}
+			c.emitClient("client", stream, nil, io.EOF, false, nil, ops)
+		}
+	}
+	defer func() {
+		inner := props["C07"]
+		props["C07"] = func(c *ctx) { inner(c); c07walk(c) }
+	}()
 	props["C07"] = func(c *ctx) {
 		pktAt := func(m []byte, extra int, i int) {
 			var buf []byte
